@@ -64,6 +64,11 @@ def step (m : MA) (i : XI) : Option MA :=
     if isGpRt rt then (m.getGp id).map fun v => storeBytes m o (gpBytes rt) v
     else if isVRt rt then (m.getV id).map fun t => storeVec m o (vBytes rt) t
     else none
+  | .sxtb, [.reg rt id, .reg _ s] => if isGpRt rt then (m.getGp s).map fun v => m.setGp id (if rt = 5 then InvokeSpec.lowBytes 4 (sext8 v) else sext8 v) else none
+  | .sxth, [.reg rt id, .reg _ s] => if isGpRt rt then (m.getGp s).map fun v => m.setGp id (if rt = 5 then InvokeSpec.lowBytes 4 (sext16 v) else sext16 v) else none
+  | .sxtw, [.reg rt id, .reg _ s] => if rt = 6 then (m.getGp s).map fun v => m.setGp id (sext32 v) else none
+  | .uxtb, [.reg rt id, .reg _ s] => if isGpRt rt then (m.getGp s).map fun v => m.setGp id (zext8 v) else none
+  | .uxth, [.reg rt id, .reg _ s] => if isGpRt rt then (m.getGp s).map fun v => m.setGp id (zext16 v) else none
   | .strb, [.reg rt id, .mem 31 o _] => if isGpRt rt then (m.getGp id).map fun v => storeBytes m o 1 v else none
   | .strh, [.reg rt id, .mem 31 o _] => if isGpRt rt then (m.getGp id).map fun v => storeBytes m o 2 v else none
   | .ldr, [.reg rt id, .mem b o _] =>
